@@ -1,8 +1,12 @@
 from ..runner import Harness, Spec
+from ..translate import go_translator
 
 SPEC = Spec(
     pid="C18",
     lean_modules=["OtelVerif.Props.C18"],
+    # regenerated on every run from config.go / memorylimiter.go / total_memory_linux.go / the processor's process* functions:
+    # Lean DEFINITIONS compiled statement by statement from the Go source; Props/C18.lean proves the model equal to them
+    translators=[go_translator("gofunlean", "OtelVerif/Gen/MemLimiter.lean", args=["c18"])],
     harnesses=[
         Harness(name="check", module="internal/memorylimiter", pkg="internal/memorylimiter",
                 files={"zz_verif_c18_limiter_test.go": "c18/limiter_test.go"},
@@ -20,6 +24,18 @@ SPEC = Spec(
         Harness(name="processor", module="processor/memorylimiterprocessor", pkg="processor/memorylimiterprocessor",
                 files={"zz_verif_c18_processor_test.go": "c18/processor_test.go"},
                 test="TestVerifC18Proc", driver="drv_c18", n={"quick": 600, "thorough": 6000}),
+        Harness(name="construct", module="internal/memorylimiter", pkg="internal/memorylimiter",
+                files={"zz_verif_c18_limiter_test.go": "c18/limiter_test.go", "zz_verif_c18_construct_test.go": "c18/construct_test.go"},
+                test="TestVerifC18New", driver="drv_c18", go="go1.26", n={"quick": 1500, "thorough": 20000}),
+        Harness(name="host", module="internal/memorylimiter", pkg="internal/memorylimiter/iruntime",
+                files={"zz_verif_c18_host_test.go": "c18/host_test.go"},
+                test="TestVerifC18Host", driver="drv_c18", n={"quick": 1, "thorough": 1}),
+        Harness(name="cgroup-v2", module="internal/memorylimiter", pkg="internal/memorylimiter/cgroups",
+                files={"zz_verif_c18_cgroup_test.go": "c18/cgroup_test.go"},
+                test="TestVerifC18CgroupV2", driver="drv_c18", n={"quick": 600, "thorough": 20000}),
+        Harness(name="factory", module="processor/memorylimiterprocessor", pkg="processor/memorylimiterprocessor",
+                files={"zz_verif_c18_factory_test.go": "c18/factory_test.go"},
+                test="TestVerifC18Factory", driver="drv_c18", n={"quick": 300, "thorough": 5000}),
         Harness(name="extension", module="extension/memorylimiterextension", pkg="extension/memorylimiterextension",
                 files={"zz_verif_c18_extension_test.go": "c18/extension_test.go"},
                 test="TestVerifC18Ext", driver="drv_c18", n={"quick": 300, "thorough": 3000}),
@@ -51,18 +67,52 @@ SPEC = Spec(
          "stopsharer, no measurement) and steps that feed without a new CheckMemLimits: every LIVE processor is then fed and must answer "
          "with the verdict of the most recent measurement (the model's `refusing` input is that verdict, not the implementation's flag); "
          "corpus: sharers leave one by one while refusing (case 0) / accepting (case 1); non-trivial = both refused and accepted consumes. extension: MustRefuse after "
-         "each of 8 scripted checks. distinct = sha1 of op lines.",
+         "each of 8 scripted checks. distinct = sha1 of op lines. "
+         "Second session: totals for the percentage path now cover the WHOLE uint64 range (0x7FFFFFFFFFFF0000, 2^63-1, 2^64-1, 2^57, "
+         "2^64/100 +-1, random >= 2^57) in check and construct. construct: NewMemoryLimiter on accepted and rejected configurations (check "
+         "interval forced positive) with GetMemoryFn scripted to succeed / fail (1/4); observed: error or limit, spike, the three copied "
+         "durations, initial mode, lastGCDone = now; then one CheckMemLimits with usage exactly at the hard limit (must refuse); case 0 = "
+         "NewDefaultConfig against the regenerated definition, case 1 = 50 % / 10 % at total 0x7FFFFFFFFFFF0000; non-trivial = percentage "
+         "path with unknown total. host: iruntime.TotalMemory on this machine vs totalMemory fed with the results of the cgroup functions "
+         "and readMemInfo (one case). factory: 2-4 configuration keys (keys 0 and 1 equal-valued, odd keys > 1 percentage with GetMemoryFn "
+         "failing 1/3), 3-8 creations of processors of random signals through the real factory, limiter identity (order of first "
+         "appearance) compared with Factory.get; then 3 rounds: one limiter measures a reading at soft-1 / soft (each limiter reads its own "
+         "scripted value) and EVERY created processor is fed an empty payload; non-trivial = some limiter shared and >= 2 limiters. cgroup-v2: cgroups.memoryQuotaV2 on a scripted <mount>/memory.max: a pool of 37 "
+         "contents first (max with white space / case / suffix, empty, newline only, boundary numbers incl. the two 'unlimited' values and "
+         "int64 min/max +-1, signs, leading zeros, underscores, hex, embedded spaces, CRLF, several lines, exponents), then absent file / "
+         "mount point that is a regular file / random digit strings of 1-21 digits with optional sign, stray character and line ending; "
+         "non-trivial = a defined quota; the same file state is then read through cgroup v1's CGroups.MemoryQuota "
+         "(memory.limit_in_bytes of a memory cgroup rooted at the mount; 1/12 without a memory subsystem).",
     trusted_base=[
         "Lean 4.33.0 kernel; axioms per theorem listed under axioms_per_theorem (subset of propext, Classical.choice, Quot.sound)",
         "hand-written model of getMemUsageChecker / newFixed- / newPercentageMemUsageChecker / aboveSoftLimit / aboveHardLimit / "
         "CheckMemLimits / Start / Shutdown / the ticker loop / Config.Validate / process* + obsreport under processorhelper.New* "
         "(xprocessorhelper.NewProfiles: no obsreport) / the extension, uint64 arithmetic written out with its wrap-around on Nat; tied by "
         "exact differential on every run",
+        "translators/cmd/gofunlean (c18): a compiler from a whitelisted Go subset to Lean definitions (if/else, switch on a value, := / =, "
+        "return, struct literals, uint64/uint32/Duration/bool expressions, recognised calls; CPS for early returns; exit 2 on anything "
+        "else) - Config.Validate, NewDefaultConfig, aboveSoft/HardLimit, newFixed/newPercentageMemUsageChecker, percentOf, "
+        "getMemUsageChecker, doGCandReadMemStats and CheckMemLimits are REGENERATED from /repo on every run and the model is proved equal "
+        "to them (C18_src_*); the translator itself is trusted (its output is also exercised: the driver's mk / new ops run the regenerated "
+        "percentage formula against the real constructor); primitives of the generated CheckMemLimits: readMemStats (shape-checked), "
+        "runGCFn, time.Now / time.Since, atomic.Bool Load / Store; logger calls are dropped",
+        "Start / Shutdown / MustRefuse / the extension's methods / factory.getMemoryLimiter are outside the compiled subset (mutex, "
+        "goroutine, select, map): modelled by hand, pinned by statement skeletons regenerated from /repo (C18_src_skeletons)",
         "runtime.ReadMemStats and runtime.GC themselves are scripted (the property is about the decision taken on their results)",
         "Go runtime: time.Ticker, goroutines, testing/synctest virtual clock",
     ],
     assumptions=[
-        "percentage mode: total memory < 2^57 bytes (larger totals overflow percentage*total in uint64; hypothesis of C18_no_underflow)",
+        "percentage mode: NO bound on the total memory any more (C18_no_underflow_repaired, C18_source_first_clause_all_totals, "
+        "C18_host_first_clause hold for every uint64 total) - the theorems are about the repaired percentOf (fix 4a61708fb in /repo); the "
+        "unrepaired formula keeps its theorem under total < 2^57 and the kernel-checked counterexample C18_no_underflow_pinned_full_fails",
+        "iruntime.TotalMemory: the DECISION after the cgroup reads is regenerated and proved (C18_src_total_memory) and cgroup v2's "
+        "memoryQuotaV2 (memory.max: absent / max / decimal int64 / anything else) is modelled by hand, pinned by its skeleton and diffed on "
+        "scripted files (harness cgroup-v2; C18_cgroup_v2_total composes the two), likewise cgroup v1's CGroups.MemoryQuota / readInt "
+        "(memoryQuotaV1, C18_cgroup_v1_total); cgroup v1's discovery of the memory cgroup (mountinfo / /proc/self/cgroup parsing), "
+        "IsCGroupV2 and gopsutil's /proc/meminfo reader are not modelled, and TotalMemory as a whole is diffed on one host "
+        "state only (this machine: cgroup v1, quota 'unlimited', fallback to /proc/meminfo)",
+        "the factory's map is keyed by the *Config pointer: equal-valued configurations of different component instances do NOT share a "
+        "limiter (modelled and diffed; whether that is intended is not the property's subject)",
         "CheckMemLimits calls are sequential (one monitoring goroutine; direct calls are not concurrent with it)",
         "Start / Shutdown are atomic steps of the label model (sequentialised histories) because the code holds refCounterLock; this is "
         "exercised, not proved: harnesses stress / stress-race run 2-8 native goroutines doing Start...Shutdown pairs in real time (with "
